@@ -96,15 +96,15 @@ def deep():
     for ct in range(7):
         o.append(hist(ct, 1, 10, [2, 3], [5, 1, 4], 3, om=(0, 1, 2)[ct % 3], kmax=6, ops5=True))
     # long histories: 4 operations of all kinds / 5 and 6 read-skip operations
-    for ct, opt, om in ((1, 1, 0), (5, 1, 1), (0, 1, 2), (2, 0, 2), (6, 1, 0), (4, 1, 1), (3, 0, 0), (5, 0, 2)):
-        o.append(hist(ct, opt, 7, [2, 1, 3, 1], None, 4, om=om, kmax=4))
+    for i, (ct, opt) in enumerate(ALL):
+        o.append(hist(ct, opt, 7, [2, 1, 3, 1], None, 4, om=(0, 1, 2)[i % 3], kmax=4))
     for ct, opt, om in ((1, 1, 2), (5, 1, 0), (0, 1, 1), (3, 0, 2), (6, 0, 1), (2, 1, 0)):
         o.append(hist(ct, opt, 7, [1, 3, 2, 1], None, 5, om=om, kmax=3, rw_only=True, timeout=2400))
     o.append(hist(1, 1, 6, [1, 2, 1, 2], None, 6, om=2, kmax=2, rw_only=True, timeout=2400))
     o.append(hist(5, 1, 6, [2, 1, 2, 1], None, 6, om=1, kmax=2, rw_only=True, timeout=2400))
     # compressed pages (decompressed page buffers instead of views), two row groups
-    for ct, opt, codec, om in ((1, 1, 'snappy', 0), (5, 1, 'lz4', 1), (2, 0, 'snappy', 2), (0, 1, 'lz4', 0), (6, 0, 'snappy', 1), (4, 1, 'lz4', 2)):
-        o.append(hist(ct, opt, 9, [1, 2, 3, 2, 1], [6, 3], 3, om=om, codec=codec, kmax=7))
+    for i, (ct, opt) in enumerate(ALL):
+        o.append(hist(ct, opt, 9, [1, 2, 3, 2, 1], [6, 3], 3, om=(1, 2, 0)[i % 3], codec=('snappy', 'lz4')[(i // 3) % 2], kmax=7))
     # an empty row group in the middle of the file
     o.append(hist(1, 1, 8, 3, [4, 0, 4], 3, kmax=5))
     o.append(hist(5, 0, 8, 3, [4, 0, 4], 3, kmax=5))
@@ -122,7 +122,9 @@ def deep():
     for ct, opt, yt, yopt, codec in ((1, 1, 5, 1, 'snappy'), (2, 0, 0, 1, 'lz4'), (5, 1, 4, 0, 'snappy'), (6, 1, 1, 0, 'lz4'), (0, 0, 3, 1, 'snappy')):
         o.append(batch(ct, opt, yt, yopt, 9, 3, [6, 3], codec=codec))
     o.append(batch(1, 1, 5, 1, 8, 3, [4, 0, 4]))
-    o.append(batch(2, 0, 4, 0, 12, [5, 1, 1, 5], None))
+    for i, (ct, opt) in enumerate(ALL):
+        yt, yopt = [(4, 1), (5, 0), (1, 1), (0, 1), (6, 0), (2, 1), (3, 0)][i % 7]
+        o.append(batch(ct, opt, yt, yopt, 12, [5, 1, 1, 5], None, om=(2, 0, 1)[i % 3]))
     o.append(batch(0, 1, 6, 1, 17, [8, 9], None, om=2))
     o.append(batch(5, 1, 1, 0, 17, [9, 8], [9, 8], om=1))
     return o
